@@ -125,18 +125,22 @@ def _narrow(e, lo, hi):
     _refine[k] = (e, lo, hi)
 
 
-def refine_from(b, positive=True):
+def refine_from(b, positive=True, depth=0):
     """learn interval facts from a path-condition conjunct (signed comparisons with a numeral)"""
+    if depth > 2:
+        return
     try:
         if z3.is_not(b):
-            return refine_from(b.arg(0), not positive)
+            return refine_from(b.arg(0), not positive, depth)
         if z3.is_and(b) and positive:
-            for a in b.children():
-                refine_from(a, True)
+            if b.num_args() <= 12:
+                for a in b.children():
+                    refine_from(a, True, depth + 1)
             return
         if z3.is_or(b) and not positive:
-            for a in b.children():
-                refine_from(a, False)
+            if b.num_args() <= 12:
+                for a in b.children():
+                    refine_from(a, False, depth + 1)
             return
         if not z3.is_app(b) or b.num_args() != 2:
             return
